@@ -77,12 +77,15 @@ class ProjectorModel:
             raise AnalysisError(RULE, f"unexpected constructor parameters {self.init_params}")
         self.init_cache = {}
         self.init_assign = {}
+        from .resolve import env_at as _ea, resolved as _rs
         for n in own_nodes(self.init):
             if isinstance(n, ast.Assign):
                 for t in n.targets:
                     d = dotted(t)
                     if d and d.startswith("self."):
-                        self.init_assign[d[5:]] = n.value
+                        self.init_assign[d[5:]] = _rs(n.value, _ea(n, self.init))  # constructor locals resolved
+        # the texts that denote the Hermitian flag inside the constructor: the attribute, or the expression stored in it
+        self.herm_texts = {"self._hermitian"} | ({norm(self.init_assign["_hermitian"])} if "_hermitian" in self.init_assign else set())
         for k in CACHE_OP:
             if k not in self.init_assign:
                 raise AnalysisError(RULE, f"cache attribute {k} not initialised in __init__")
@@ -102,7 +105,7 @@ class ProjectorModel:
             return None
         if isinstance(v, ast.Name) and v.id == "self":
             return "self"
-        if isinstance(v, ast.IfExp) and norm(v.test) == "self._hermitian":
+        if isinstance(v, ast.IfExp) and norm(v.test) in self.herm_texts:
             arm = v.body if hermitian else v.orelse
             if isinstance(arm, ast.Constant) and arm.value is None:
                 return None
@@ -386,7 +389,8 @@ def rule_projector(rep: Report, repo: Repo):
         if len(params) != 1 or len(rets) != 1:
             raise AnalysisError(RULE, f"{f.name}: expected one parameter and one return")
         env = {params[0]: v, "self._vecs": R, "self._left_vecs": L}
-        got = ld.Den(env, RULE).ev(rets[0].value)
+        from .resolve import env_at as _env_at, resolved as _resolved
+        got = ld.Den(env, RULE).ev(_resolved(rets[0].value, _env_at(rets[0], f, keep_params=True)))
         if got == want:
             rep.ok(RULE, f"{CLS}.{slot} -> {f.name} denotes {txt}", f"`{norm(rets[0].value)}` = {ld.show(got)}", loc(f))
         else:
